@@ -443,6 +443,7 @@ struct MarkVisitor<'a> {
     return_n: usize,
     iters: BTreeMap<usize, String>,
     closures: BTreeMap<usize, Value>,
+    closure_default: Option<Value>,
     // (anchor kind, index) -> proof ids
     proofs_loop_start: BTreeMap<usize, Vec<String>>,
     proofs_loop_end: BTreeMap<usize, Vec<String>>,
@@ -566,7 +567,7 @@ impl<'a> VisitMut for MarkVisitor<'a> {
     fn visit_expr_closure_mut(&mut self, c: &mut syn::ExprClosure) {
         let k = self.closure_n;
         self.closure_n += 1;
-        if let Some(spec) = self.closures.get(&k).cloned() {
+        if let Some(spec) = self.closures.get(&k).cloned().or_else(|| self.closure_default.clone()) {
             if let Some(params) = spec["params"].as_str() {
                 match syn::parse_str::<Expr>(&format!("|{}| ()", params)) {
                     Ok(Expr::Closure(pc)) => {
@@ -712,6 +713,7 @@ fn transform_fn(
             .filter_map(|(k, v)| v.as_str().map(|s| (k, s.to_string())))
             .collect(),
         closures: parse_idx_map(&plan["closures"]),
+        closure_default: if plan["closure_default"].is_object() { Some(plan["closure_default"].clone()) } else { None },
         proofs_loop_start: BTreeMap::new(),
         proofs_loop_end: BTreeMap::new(),
         proofs_loop_after: BTreeMap::new(),
